@@ -32,6 +32,51 @@ type Case struct {
 	Kind    string      `json:"kind"`
 	Polys   [][][]gen.P `json:"polys"` // members -> rings -> vertices exactly as spelled
 	Queries []gen.P     `json:"queries"`
+	// Placement of the lattice case in the plane, exact in float64: every coordinate handed to orb
+	// is (v + Off) * 2^K. The oracle works on the unplaced lattice coordinates (containment is
+	// invariant under translation and positive scaling).
+	K   int   `json:"k"`
+	Off gen.P `json:"off"`
+}
+
+// placer maps lattice coordinates to the coordinates given to orb.
+type placer struct {
+	k      int
+	ox, oy int64 // Off * unit
+}
+
+func (c Case) placer() (placer, error) {
+	pl := placer{k: c.K}
+	if c.K < -64 || c.K > 64 {
+		return pl, fmt.Errorf("harness: scale exponent %d outside [-64, 64]", c.K)
+	}
+	for i, o := range []float64{float64(c.Off[0]), float64(c.Off[1])} {
+		v := o * unit
+		if v != math.Trunc(v) || math.Abs(v) > 1<<51 {
+			return pl, fmt.Errorf("harness: offset %v is not a multiple of 1/%v below 2^41", o, unit)
+		}
+		if i == 0 {
+			pl.ox = int64(v)
+		} else {
+			pl.oy = int64(v)
+		}
+	}
+	return pl, nil
+}
+
+// pt: (p + off) * 2^k computed through integers, hence exact (|p*unit| <= 2^29, |off*unit| <= 2^51).
+func (pl placer) pt(p orb.Point) orb.Point {
+	x := int64(p[0]*unit) + pl.ox
+	y := int64(p[1]*unit) + pl.oy
+	return orb.Point{math.Ldexp(float64(x), pl.k-10), math.Ldexp(float64(y), pl.k-10)}
+}
+
+func (pl placer) pts(ps []orb.Point) []orb.Point {
+	out := make([]orb.Point, len(ps))
+	for i, p := range ps {
+		out[i] = pl.pt(p)
+	}
+	return out
 }
 
 func (c Case) mp() orb.MultiPolygon {
@@ -291,6 +336,22 @@ func checkCase(c Case) error {
 	iqs, err := toIs(qs)
 	if err != nil {
 		return err
+	}
+	// from here on mp and qs are the placed coordinates that orb sees; imp / iqs stay on the lattice
+	pl, err := c.placer()
+	if err != nil {
+		return err
+	}
+	if pl != (placer{}) {
+		qs = pl.pts(qs)
+		placed := make(orb.MultiPolygon, len(mp))
+		for i, p := range mp {
+			placed[i] = make(orb.Polygon, len(p))
+			for j, r := range p {
+				placed[i][j] = orb.Ring(pl.pts(r))
+			}
+		}
+		mp = placed
 	}
 
 	switch c.Kind {
@@ -613,6 +674,10 @@ func genQuery(t *rapid.T, rings []qring, wide bool) ([2]int, string) {
 	return [2]int{lat("x"), lat("y")}, kind
 }
 
+// offsets up to 2^30 (+ a fraction): one ulp at 2^30 is 2^-22, still 2^4 below what the nudged slope
+// comparison needs on this lattice (unit 1/32, |slope| < 2^13), so the float computation stays exact
+var bigOffsets = []float64{0, 1 << 20, -(1 << 20), 1 << 30, -(1 << 30), 1<<30 + 0.5, -(1<<30 + 1<<10), 3 << 28}
+
 var (
 	outerShapes = []string{"bigrect", "bigrect", "star", "star", "any", "rect", "half"}
 	holeShapes  = []string{"small", "small", "small", "star", "any", "rect"}
@@ -629,6 +694,7 @@ func genPolygon(t *rapid.T, maxHoles int) []qring {
 
 func TestPropContains(t *testing.T) {
 	stats.Assume("every coordinate is a dyadic rational k/32 with |k/32| <= 256 (multiples of 1/1024 are accepted by the oracle), so that orb's float slope comparison is exact and any disagreement with the integer oracle is a logic error")
+	stats.Assume("cases are placed exactly at (v + off) * 2^k with k in [-40, 40] and off in {0, +-2^20, +-2^30, 2^30+0.5, -(2^30+2^10), 3*2^28} per axis; the oracle decides on the unplaced lattice")
 	stats.Assume("rings have >= 3 listed vertices (repeats allowed), polygons have an outer ring; Polygon{} and rings without vertices are outside the quantifier")
 	stats.Check(t, 240000, 4000000, func(rt *rapid.T) {
 		kind := rapid.SampledFrom([]string{"ring", "ring", "ring", "polygon", "polygon", "multipolygon"}).Draw(rt, "kind")
@@ -670,6 +736,33 @@ func TestPropContains(t *testing.T) {
 			qkinds = append(qkinds, k)
 		}
 		c := caseOf(kind, mp, qs)
+		// exact placement far from the origin and at other length scales: the ulp nudge and the slope
+		// comparison have no intrinsic unit of length, an absolute epsilon would
+		switch rapid.IntRange(0, 3).Draw(rt, "placement") {
+		case 0:
+		case 1:
+			c.K = rapid.IntRange(-40, 40).Draw(rt, "k")
+		case 2:
+			c.Off = gen.P{gen.F(rapid.SampledFrom(bigOffsets).Draw(rt, "offx")), gen.F(rapid.SampledFrom(bigOffsets).Draw(rt, "offy"))}
+		default:
+			c.K = rapid.IntRange(-40, 40).Draw(rt, "k")
+			c.Off = gen.P{gen.F(rapid.SampledFrom(bigOffsets).Draw(rt, "offx")), gen.F(rapid.SampledFrom(bigOffsets).Draw(rt, "offy"))}
+		}
+		switch {
+		case c.K == 0 && c.Off == (gen.P{}):
+			stats.Class("placement:none")
+		case c.Off == (gen.P{}):
+			stats.Class("placement:scaled by 2^k")
+		case c.K == 0:
+			stats.Class("placement:large dyadic offset")
+		default:
+			stats.Class("placement:large dyadic offset then scaled by 2^k")
+		}
+		if c.K <= -20 {
+			stats.Class("placement:k <= -20")
+		} else if c.K >= 20 {
+			stats.Class("placement:k >= 20")
+		}
 		classify(c, members, f, qkinds)
 		stats.Try(rt, "TestPropContains", c, func() error { return checkCase(c) })
 	})
@@ -799,7 +892,7 @@ func classify(c Case, members [][]qring, f frame, qkinds []string) {
 // power-of-two scales)
 type placement struct{ sx, tx, sy, ty float64 }
 
-var placements = []placement{{1, 0, 1, 0}, {0.5, -1, 2, -3}}
+var placements = []placement{{1, 0, 1, 0}, {0.5, -1, 2, -3}, {4, 1 << 18, 0.25, -(1 << 18)}}
 
 type lattice struct {
 	pts   [16]orb.Point
